@@ -29,6 +29,7 @@ pub struct World {
     pub recovered: Set<int>, pub created: Set<int>,   // directories handed to Database::recover / Database::create_new
     pub flush_tasks_cleared: bool, pub keyspaces_cleared: bool, pub journal_queue_cleared: bool, pub dir_removed: bool,   // Drop for DatabaseInner
     pub stop_sent: bool, pub threads: nat,   // stop signal raised; background threads of this instance still running
+    pub poisoned: bool,                 // the instance's poison flag (fail-stop: no write is acknowledged any more)
 }
 pub struct PathBuf { pub id: Ghost<int> }
 pub struct Path { pub id: Ghost<int> }
@@ -262,7 +263,10 @@ pub struct WorkerStateD { pub dummy: u8 }
 #[verifier::external_body]
 pub fn worker_tick(ws: &WorkerStateD, Tracked(w): Tracked<&mut World>) -> (r: FjResult<bool>) ensures *final(w) == *old(w) { unimplemented!() }
 pub struct PoisonDart { pub dummy: u8 }
-impl PoisonDart { #[verifier::external_body] pub fn poison(&self) { unimplemented!() } }
+impl PoisonDart {
+    // PoisonDart::poison: sets the database's poison flag (src/poison.rs); its Drop does so only while the thread is panicking
+    #[verifier::external_body] pub fn poison(&self, Tracked(w): Tracked<&mut World>) ensures *final(w) == (World { poisoned: true, ..*old(w) }) { unimplemented!() }
+}
 impl ThreadCounter {
     // AtomicUsize::fetch_sub(1) on active_thread_counter
     #[verifier::external_body]
@@ -270,15 +274,18 @@ impl ThreadCounter {
         requires old(w).threads >= n,
         ensures *final(w) == (World { threads: (old(w).threads - n) as nat, ..*old(w) }) { unimplemented!() }
 }
-//@extract src/worker_pool.rs :: WorkerPool :: start as=worker_loop_iteration world props=C17
+//@extract src/worker_pool.rs :: WorkerPool :: start as=worker_loop_iteration world props=C17+C13
 //@anchor match worker_tick(&worker_state)
-//@world worker_tick thread_counter.fetch_sub
+//@world worker_tick thread_counter.fetch_sub poison_dart.poison
 //@sig fn worker_loop_iteration(worker_state: WorkerStateD, thread_counter: ThreadCounter, poison_dart: PoisonDart, i: usize) -> Result<(), Error>
 //@contract
     requires old(w).threads >= 1,   // this thread is counted (WorkerPool::start adds the pool size before spawning)
     ensures
         // whichever way a worker thread ends -- told to close, or stopped by an error -- it is no longer counted as alive
         final(w).threads == old(w).threads - 1, // [C17:a-worker-leaves-only-after-decrementing-the-live-thread-counter]
+        // background work (flush, journal rotation, compaction) has no caller to report an error to: a worker that stops with one
+        // makes the instance fail-stop
+        r is Err ==> final(w).poisoned, // [C13:a-worker-that-stops-with-an-error-poisons-the-instance]
 //@end
 
 //@canary
